@@ -484,6 +484,36 @@ pub fn case_mock(va: &dyn VariantApi, s: &DeScript, st: &CaseStats) -> Result<()
     let v = va.v();
     st.eval();
     let got = catch(|| va.mock_de(s).unwrap()).map_err(|p| format!("{}: Deserialize panicked on the visitor event {:?} (human_readable = {}): {}", v.name, s.event, s.human, p))?;
+    // `deserialize_in_place` (what Vec / Option / arrays use when reloading in place) is the same
+    // function of the document: same verdict, same value, whatever the place held before
+    {
+        let mut initial = vec![0u8; v.size()];
+        initial[v.ck + 2] = 0x5A;
+        if let Some(inp) = catch(|| va.mock_de_in_place(s, &initial)).map_err(|p| format!("{}: deserialize_in_place panicked on the visitor event {:?}: {}", v.name, s.event, p))? {
+            st.eval();
+            let same = match (&got, &inp) {
+                (Ok(a), Ok(b)) => a.equals(b.as_ref()),
+                (Err(_), Err(_)) => true,
+                _ => false,
+            };
+            if !same {
+                return Err(format!(
+                    "{}: visitor event {:?} (human_readable = {}): deserialize gives {} but deserialize_in_place gives {}",
+                    v.name,
+                    s.event,
+                    s.human,
+                    match &got {
+                        Ok(h) => h.display(),
+                        Err(e) => format!("Err({})", e),
+                    },
+                    match &inp {
+                        Ok(h) => h.display(),
+                        Err(e) => format!("Err({})", e),
+                    }
+                ));
+            }
+        }
+    }
     let kind = s.event.kind();
     let bytes_like = matches!(s.event, DeEvent::Bytes(_) | DeEvent::BorrowedBytes(_) | DeEvent::ByteBuf(_));
     let str_like = matches!(s.event, DeEvent::Str(_) | DeEvent::BorrowedStr(_) | DeEvent::String(_));
